@@ -214,7 +214,7 @@ class Parameters:
             A dict or list of parameter definitions.
         """
         if all("." not in p.label for p in self.all()):
-            return list(self.all())
+            return [p.as_list() if serialize_parameters else p for p in self.all()]
         parameter_dict: dict[str, Any] = {}
         for parameter in self.all():
             path = parameter.label.split(".")
